@@ -30,6 +30,14 @@ CHECKS["C04"] = dict(
     ref="C04",
 )
 
+CHECKS["C03"] = dict(
+    technique="Coq proof: dispatch totality + traversal never raises for all trees (over tables translated from traverser.py and mypy's node classes); crash search by CLI/in-process runs over fault scenarios, mutated idioms and a stdlib sample",
+    category="proof",
+    text="Partial. Proved for all trees: every node class mypy defines has an accept() overload (finite, regenerated each run), Optional children are None-tested, hence visit never returns an error (traverse_no_exn, by the Tree.v induction). Not provable: absence of uncaught exceptions inside the 93 check bodies and inside mypy; those are searched: ~35 fault scenarios through the real CLI (encodings, missing/odd inputs, PEP 695, typing states), AST-mutated near-misses of every test/data idiom, test/data, a stdlib sample, each requiring exit status 0/1 and no traceback.",
+    note="Trusted: Coq kernel; translators shared with C04; mypy class annotations for Optional-ness. The crash search is sampling, not proof (partial).",
+    ref="C03",
+)
+
 NOT_APPLICABLE = {}
 
 
